@@ -27,6 +27,8 @@ Extracted (None = pattern not recognised -> `extraction_failed`):
   * sweep_commands        the command names after which `process_normal_command` runs that sweep; exec_sweep_commands: the
                           queued command names after which `handle_exec` sweeps the database.  Consumed by the table theorem
                           `Ferrous.C13.sweep_covers_scripts_and_rename` (EVAL, EVALSHA, RENAME, RENAMENX must be in both).
+  * wake_checks_client    does `wake_client` test that the connection is still Blocked (on that key) BEFORE popping the
+                          element, and does the hang-up probe in `process_connections` unregister the vanished client ?
   * exec_atomic           do the LPUSH / RPUSH arms skip the notification when `conn_id == 0` (run by EXEC), is the
                           drain skipped too, and does `handle_exec` call `serve_key` for the pushed keys afterwards ?
 """
@@ -50,7 +52,7 @@ def _arm(text, name):
 def facts(src, strip_comments, fn_body):
     out = {"wake_batch": None, "notify_per_element": None, "wake_at_push": None, "unregister_all": None, "refuse_in_tx": None, "dedup_keys": None,
            "drain_all": None, "notice_blocked_hangup": None, "defer_batch": None, "exec_atomic": None, "serve_after_script": None,
-           "sweep_commands": None, "exec_sweep_commands": None}
+           "sweep_commands": None, "exec_sweep_commands": None, "wake_checks_client": None}
     bl = strip_comments(src("network/blocking.rs"))
     pw = fn_body(bl, "process_wakeups")
     if pw is not None:
@@ -100,6 +102,12 @@ def facts(src, strip_comments, fn_body):
     wc = fn_body(sv, "wake_client")
     if wc is not None and "send_frame" in wc and ("lpop" in wc and "rpop" in wc):
         out["unregister_all"] = bool(re.search(r"unregister_client\s*\(", wc))
+        # does wake_client look at the connection (Blocked, on this key) BEFORE it pops, and does the hang-up probe of
+        # process_connections unregister a vanished blocked client at once ?
+        first_pop = min(wc.find("storage.lpop"), wc.find("storage.rpop"))
+        looks_first = bool(re.search(r"ConnectionState::Blocked", wc[:first_pop])) and "with_connection" in wc[:first_pop]
+        probe_unregs = bool(pcs is not None and re.search(r"peer_closed\s*\(\s*\)", pcs) and re.search(r"unregister_client\s*\(", pcs))
+        out["wake_checks_client"] = looks_first and probe_unregs
     rf, dd = [], []
     for fn in ("handle_blpop", "handle_brpop"):
         hb = fn_body(sv, fn)
@@ -138,6 +146,7 @@ def generate(src, strip_comments, fn_body, header):
     item("noticeBlockedHangup", "Bool", f["notice_blocked_hangup"], "process_connections probes blocked connections with Connection::peer_closed()", "process_connections not recognised")
     item("deferBatchWhenBlocked", "Bool", f["defer_batch"], "process_connection keeps the frames behind a blocking pop that blocked (deferred_frames)", "process_connection not recognised")
     item("execAtomic", "Bool", f["exec_atomic"], "queued pushes do not notify (conn_id == 0); handle_exec serves the pushed keys afterwards (serve_key)", "handle_exec not recognised")
+    item("wakeChecksClient", "Bool", f["wake_checks_client"], "wake_client checks the connection before popping; the hang-up probe unregisters at once", "wake_client not recognised")
     for nm, key, doc in (("sweepCommands", "sweep_commands", "commands after which process_normal_command serves the blocked keys of the database"),
                          ("execSweepCommands", "exec_sweep_commands", "queued commands after which handle_exec serves the blocked keys of the database")):
         if f[key] is None:
